@@ -23,12 +23,16 @@ type params struct {
 	P       int
 	FailClose string // member whose Close returns an error
 	Backlog   int    // messages the members deliver before the application starts to read (the merge queue holds 1024)
+	StallSelect string // (with Stall) member selected while the Write is stuck; a second Write follows
 	Stall     string // member whose Write stalls (back pressure) until it is closed; Close is called while a Write is stuck in it
 }
 
 func (p params) name() string {
 	if p.Backlog > 0 {
 		return fmt.Sprintf("%s/init=%q/%s/%s/reads=%s/P%d/backlog=%d", strings.Join(p.Members, ""), p.Initial, p.Sched, strings.Join(p.Events, ","), strings.Join(p.Reads, ","), p.P, p.Backlog)
+	}
+	if p.StallSelect != "" {
+		return fmt.Sprintf("%s/init=%q/P%d/stall=%s/then-select=%s", strings.Join(p.Members, ""), p.Initial, p.P, p.Stall, p.StallSelect)
 	}
 	if p.Stall != "" {
 		return fmt.Sprintf("%s/init=%q/%s/%s/reads=%s/P%d/stall=%s", strings.Join(p.Members, ""), p.Initial, p.Sched, strings.Join(p.Events, ","), strings.Join(p.Reads, ","), p.P, p.Stall)
@@ -99,6 +103,8 @@ func scenarios(tier string) []vlib.Scenario {
 	// Close while a Write is stuck inside the selected member
 	add(params{Members: []string{"a", "b"}, Initial: "a", Sched: "event", Events: []string{"a"}, Reads: []string{"b"}, Stall: "a"})
 	add(params{Members: []string{"a", "b", "c"}, Initial: "a", Sched: "event", Events: []string{"b"}, Reads: []string{"a"}, Stall: "b", P: 1})
+	add(params{Members: []string{"a", "b"}, Initial: "a", Sched: "event", Events: []string{"a"}, Reads: []string{"b"}, Stall: "a", StallSelect: "b"})
+	add(params{Members: []string{"a", "b"}, Initial: "a", Sched: "event", Events: []string{"a"}, Reads: []string{"b"}, Stall: "a", StallSelect: "b", P: 1})
 	add(params{Members: []string{"a", "b"}, Initial: "a", Sched: "lastused", Events: []string{"t", "t"}, Reads: []string{"b", "a"}, P: 1})
 	if tier == "thorough" {
 		add(params{Members: []string{"a", "b", "c"}, Initial: "b", Sched: "event", Events: []string{"c", "x", "a"}, Reads: []string{"a", "b", "c"}, P: 2})
@@ -179,6 +185,8 @@ type step struct {
 
 type world struct {
 	stuckErr  error
+	secondErr error
+	secondDone, secondInTime, secondLanded bool
 	stuckDone bool
 	p        params
 	members  map[string]*member
@@ -310,6 +318,26 @@ func (w *world) main() {
 		vsched.Go("h:stuck-writer", func() { w.stuckErr = tr.Write([]byte("stuck")); w.stuckDone = true })
 		vsched.Quiesce()
 	}
+	if w.p.Stall != "" && w.p.StallSelect != "" {
+		// while that Write is stuck the scheduler selects another member: a new Write goes there, the accessors answer
+		k := vsched.PreSend(evCh, "h:event")
+		evCh <- transport.TransportID(w.p.StallSelect)
+		k.Done()
+		vsched.Quiesce()
+		vsched.Go("h:second-writer", func() {
+			w.secondErr = tr.Write([]byte("second"))
+			tr.AsUnreliable()
+			tr.NegotiationParams()
+			w.secondDone = true
+		})
+		vsched.Sleep(5*time.Second, "h:second-writer-deadline")
+		w.secondInTime = w.secondDone
+		for _, l := range w.members[w.p.StallSelect].log {
+			if string(l) == "second" {
+				w.secondLanded = true
+			}
+		}
+	}
 	w.phase = "close"
 	w.rxSum, w.txSum = tr.RxBytesCounterValue(), tr.TxBytesCounterValue()
 	for _, m := range w.members {
@@ -350,6 +378,9 @@ func run(sc vlib.Scenario, cfg vsched.Config) (*vsched.Result, vlib.Verdict) {
 	if res.Outcome != vsched.Completed {
 		v.Fail("C19.blocked", w.phase, "the scenario did not complete (phase %s): %v", w.phase, res.Outcome)
 		return res, v
+	}
+	if w.p.StallSelect != "" && (!w.secondInTime || !w.secondLanded || w.secondErr != nil) {
+		v.Fail("C19.route", fmt.Sprintf("write-behind-stalled-member/returned=%v/landed=%v", w.secondInTime, w.secondLanded), "a Write is stuck in member %s, the scheduler then selected %s: the next Write (and the accessors) returned within 5 s: %v (error %v), reached %s: %v", w.p.Stall, w.p.StallSelect, w.secondInTime, w.secondErr, w.p.StallSelect, w.secondLanded)
 	}
 	// routing: reference "current id" model
 	if isMember(w.p.Initial) && (w.p.Sched == "event" || w.p.Sched == "nic") {
